@@ -112,6 +112,9 @@ func DecodeAction(data []byte) (Action, error) {
 			a = DecodeNxAction(data)
 		}
 	}
+	if a == nil {
+		return nil, errors.New("unsupported action type or experimenter subtype")
+	}
 	err := a.UnmarshalBinary(data)
 	if err != nil {
 		return a, err
